@@ -15,6 +15,15 @@ End to end (the property itself, evaluated on the returned tables, no model invo
 all subsets of <= 4 features x all permutations x column_ordering x PYTHONHASHSEED subprocesses x configurations
 (links -> index features, global filters -> filter features, dependencies requested too, multi-column features,
 name~i requests, three compute frameworks).
+Execution modes: a sample of the same ordered requests x orderings x configurations is run under SYNC, THREADING and
+MULTIPROCESSING (one Flight server for the whole check, shared by the worker subprocesses).  Planning -- every
+add_feature_to_collection call -- happens in the orchestrator's process before the run in every mode, and so does the
+selection of the result columns: after a worker THREAD finished, resp. after the table uploaded by a worker PROCESS was
+downloaded (observed: calls recorded inside worker processes are shipped back through a file and must be empty; the uploaded
+column sets are recorded in the worker processes and compared with what the selection saw).  The runs are judged by the same
+Coq checkers (chk_process_kf, chk_ident, chk_ident_kf), by chk_ident_mode (Model/Collection.seen_cols), by the statement
+itself and against the SYNC run of the same case.  Two mode-specific known-defect domains, decided on the exported plan and
+the object footprint of the SYNC run: conflict_free / conflict_free_x (Model/OrchCheck.v) and kf_mp_join_after_upload.
 """
 from __future__ import annotations
 
@@ -33,13 +42,17 @@ from lib import vlib
 from lib.vlib import cq_bool, cq_list, cq_nat, cq_str
 
 LEVEL = "proof"
-REQ = ["MV.Model.Naming", "MV.Model.Collection"]
+REQ = ["MV.Model.Modes", "MV.Model.Naming", "MV.Model.Collection"]
+MODES3 = ["SYNC", "THREADING", "MULTIPROCESSING"]
+CQ_MODE = {"SYNC": "MSync", "THREADING": "MThreading", "MULTIPROCESSING": "MMultiprocessing"}
 WORKER = Path(__file__).resolve().parent / "c03_worker.py"
 FUEL = 8
 
 KF_ORDER = "C03-request-order-set-iteration"
 KF_SUBCOL = "C03-subcolumn-request-normalised"
 KF_ORPHAN = "C03-filter-feature-on-derived-group-unlinked"
+KF_RACE = "C03-unordered-steps-lose-requested-column"
+KF_MPJOIN = "C03-mp-join-after-upload-non-arrow"
 
 # ------------------------------------------------------------------------------------------------------------
 # generated feature graphs
@@ -225,6 +238,14 @@ Definition chk_ident (c : (list string * list string * ordering) * result) : boo
 Definition chk_ident_kf (c : (list string * list string * list string) * result) : bool :=
   let '((it, cols, rq), r) := c in
   res_eqb (identify it cols ORequest) r || res_eqb (identify rq cols ORequest) r.
+(* a selection call of a run in mode m: held = the columns of the object where the step ran (MULTIPROCESSING: of the table the
+   worker process uploaded), transf = the columns the selection saw in the orchestrator's process *)
+Definition perm_strs (a b : list string) : bool := list_eqb String.eqb (sort_str a) (sort_str b).
+Definition chk_ident_mode (c : (pmode * list string * list string * list string * ordering) * result) : bool :=
+  let '((m, it, held, transf, o), r) := c in
+  perm_strs held transf
+  && res_eqb (identify it (seen_cols m (fun _ => held) (fun _ => transf) 0) o) r
+  && res_eqb (identify it (seen_cols MSync (fun _ => held) (fun _ => transf) 0) o) r.
 Definition chk_name (c : (string * list string) * (string * string)) : bool :=
   let '((n, sup), (b, nw)) := c in String.eqb (base_feature n) b && String.eqb (set_feature_name sup n) nw.
 
@@ -279,6 +300,7 @@ Definition chk_no_orphan (c : envdata * list string) : bool := negb (orphan_filt
 """
 IDENT_TY = "(list string * list string * ordering) * result"
 IDENT_KF_TY = "(list string * list string * list string) * result"
+IDENT_MODE_TY = "(pmode * list string * list string * list string * ordering) * result"
 NAME_TY = "(string * list string) * (string * string)"
 
 
@@ -330,6 +352,65 @@ def proc_term(env: dict, req: List[str], case: dict) -> str:
 
 
 # ------------------------------------------------------------------------------------------------------------
+# execution modes
+# ------------------------------------------------------------------------------------------------------------
+def mode_requests(pool: List[str], rng: random.Random, n: int) -> List[List[str]]:
+    """n ordered requests of 1-4 names (about 1/5 singles, 1/3 pairs, the rest 3-4 names), without repetition."""
+    out: List[List[str]] = []
+    seen = set()
+    tries = 0
+    while len(out) < n and tries < 50 * n:
+        tries += 1
+        k = rng.choice([1, 2, 2, 3, 3, 4, 4, 4] if len(out) >= 2 else [1])
+        r = rng.sample(pool, k)
+        if tuple(r) not in seen:
+            seen.add(tuple(r))
+            out.append(r)
+    return out
+
+
+def canon_tables(tables: List[List[str]]) -> List[str]:
+    return sorted(json.dumps(sorted(t)) for t in tables)
+
+
+def kf_mp_join_after_upload(plan: Optional[dict], fw: str) -> bool:
+    """MULTIPROCESSING, a compute framework other than PyArrow, and a join step whose LEFT object (the object the join
+    writes) can have been uploaded before the join runs: a feature-group step that holds a requested feature, runs on that
+    object and does not (transitively) wait for the join.  ComputeFramework.upload_table replaces cfw.data by its Arrow
+    conversion; JoinStep._merge_data then hands a pyarrow Table to the framework's merge engine.  (Whether the upload really
+    precedes the join may depend on the schedule when the two steps are unordered: both outcomes are accepted there.)"""
+    if plan is None or fw == "arrow":
+        return False
+    foot = {int(k): v for k, v in plan["foot"].items()}
+    prod = {u: st["sid"] for st in plan["steps"] for u in st["uuids"]}
+    direct = {st["sid"]: {prod[u] for u in st["req"] if u in prod} for st in plan["steps"]}
+
+    def waits_for(i: int) -> set:
+        acc: set = set()
+        todo = [i]
+        while todo:
+            for y in direct.get(todo.pop(), ()):
+                if y not in acc:
+                    acc.add(y)
+                    todo.append(y)
+        return acc
+    for j in plan["steps"]:
+        if j["kind"] != "JOIN" or j["sid"] not in foot:
+            continue
+        for st in plan["steps"]:
+            if st["kind"] == "FG" and st["requested"] and foot.get(st["sid"], [None])[0] == foot[j["sid"]][0] \
+                    and j["sid"] not in waits_for(st["sid"]):
+                return True
+    return False
+
+
+def plan_term(plan: dict) -> str:
+    from harness.orch import cq_plan
+    from harness.c01 import cq_foot
+    return f"({cq_plan(plan)}, {cq_foot({int(k): (v[0], v[1]) for k, v in plan['foot'].items()})})"
+
+
+# ------------------------------------------------------------------------------------------------------------
 def run(rep: vlib.Reporter, tier: str, seed: int) -> None:
     t_start = time.time()
     rng = random.Random(seed * 7919 + 3)
@@ -361,17 +442,34 @@ def run(rep: vlib.Reporter, tier: str, seed: int) -> None:
             if ci < 3:   # unit-level cases under this hash seed as well
                 job["unit"] = {"seed": seed * 1000 + hs * 10 + ci, "n": 2500 if big else 250, "n_names": 300 if big else 60}
             jobs.append((job, hs, f"{cfg['id']}_{hs}", cfg))
+    # execution modes: per configuration a sample of ordered requests x orderings, each run SYNC, THREADING, MULTIPROCESSING
+    from harness.orch import flight_server, stop_flight_server
+    from harness import mp_obs
+    flight_location = flight_server().get_location()
+    mode_jobs: List[Tuple[dict, int, str, dict]] = []
+    for ci, cfg in enumerate(CONFIGS):
+        mrng = random.Random(seed * 31337 + ci)
+        mreqs = mode_requests(cfg["pool"], mrng, 96 if big else 8)
+        mcases = [[r, o] for r in mreqs for o in ORDERINGS]
+        hs = hashseeds[ci % len(hashseeds)]
+        job = {"universe": UNIVERSE, "config": {k: cfg[k] for k in ("fw", "links", "filters")}, "cases": mcases,
+               "modes": MODES3, "flight": flight_location}
+        mode_jobs.append((job, hs, f"modes_{cfg['id']}_{hs}", cfg))
     # unit level in a dedicated job with the check's own hash seed
     unit_job = {"unit": {"seed": seed * 1000 + 999, "n": 20000 if big else 2000, "n_names": 3000 if big else 500}}
     nproc = max(2, min(12, vlib.NCPU - 2))
     t0 = time.time()
     with ThreadPoolExecutor(max_workers=nproc) as ex:
+        mfuts = [ex.submit(run_worker, j, hs, tag) for (j, hs, tag, _) in mode_jobs]       # the longest jobs first
         futs = [ex.submit(run_worker, j, hs, tag) for (j, hs, tag, _) in jobs]
         ufut = ex.submit(run_worker, unit_job, int(os.environ.get("PYTHONHASHSEED", "0") or 0), "unit")
         results = [f.result() for f in futs]
         ures = ufut.result()
-    rep.add("workers", {"subprocesses": len(jobs) + 1, "parallel": nproc, "hash_seeds": hashseeds, "wall_s": round(time.time() - t0, 1)})
-    for (j, hs, tag, cfg), r in list(zip(jobs, results)) + [((unit_job, 0, "unit", {}), ures)]:
+        mresults = [f.result() for f in mfuts]
+    stop_flight_server()
+    rep.add("workers", {"subprocesses": len(jobs) + len(mode_jobs) + 1, "parallel": nproc, "hash_seeds": hashseeds,
+                        "wall_s": round(time.time() - t0, 1)})
+    for (j, hs, tag, cfg), r in list(zip(jobs, results)) + list(zip(mode_jobs, mresults)) + [((unit_job, 0, "unit", {}), ures)]:
         if r.get("error"):
             rep.finding(f"worker-failed:{tag}", f"worker subprocess {tag} failed: {r['error'][:300]}", {"kind": "worker", "tag": tag},
                         found_input=False)
@@ -435,6 +533,37 @@ def run(rep: vlib.Reporter, tier: str, seed: int) -> None:
             c["cfg"], c["hashseed"] = cfg["id"], hs
             runs.append(c)
     cfg_by_id = {c["id"]: c for c in CONFIGS}
+    # runs of the execution-mode family: the SYNC run of a case is the sibling of its THREADING and MULTIPROCESSING runs
+    mode_runs: List[dict] = []
+    for (j, hs, tag, cfg), r in zip(mode_jobs, mresults):
+        sib: Optional[dict] = None
+        for c in r.get("cases", []):
+            c["cfg"], c["hashseed"] = cfg["id"], hs
+            if c["mode"] == "SYNC":
+                sib = c
+            else:
+                c["sync"] = sib
+            mode_runs.append(c)
+    runs += mode_runs
+    # known-defect domains of THREADING / MULTIPROCESSING, decided on the plan and object footprint of the SYNC sibling
+    t_dom = time.time()
+    sibs = [c for c in mode_runs if c["mode"] == "SYNC" and c.get("plan")]
+    sib_terms = sorted({plan_term(c["plan"]) for c in sibs})
+    from harness.c01 import EXTRA as C01_EXTRA
+    OREQ = ["MV.Model.Orch", "MV.Model.OrchCheck"]
+    if sib_terms:
+        shard = max(20, min(80, len(sib_terms) // 12 + 1))
+        cf_bad = {sib_terms[i] for i in vlib.run_cases("C03", "cf", OREQ, "chk_cf", sib_terms, extra_defs=C01_EXTRA,
+                                                       case_type="plan * foot", shard=shard)[0]}
+        cfx_bad = {sib_terms[i] for i in vlib.run_cases(
+            "C03", "cfx", OREQ, "chk_cfx", sib_terms, case_type="plan * foot", shard=shard,
+            extra_defs=C01_EXTRA + "\nDefinition chk_cfx (c : plan * foot) := conflict_free_x (fst c) (snd c).\n")[0]}
+    else:
+        cf_bad, cfx_bad = set(), set()
+    for c in sibs:
+        t = plan_term(c["plan"])
+        c["conflict"], c["conflict_x"] = t in cf_bad, t in cfx_bad
+    t_dom = round(time.time() - t_dom, 1)
     rep.count(len(runs))
     n_exc = 0
     proc_cases: Dict[str, Tuple[str, dict]] = {}      # term -> (term, first run)
@@ -503,6 +632,8 @@ def run(rep: vlib.Reporter, tier: str, seed: int) -> None:
         orphan = {oterms[i] for i in idx}
     n_orphan = 0
     reported_exc = 0
+    mode_kf: Dict[str, int] = {}
+    mode_kf_first: Dict[str, dict] = {}
     for c in raised:
         t = f"({env_term(c['env'])}, {cq_strs(c['req'])})" if "env" in c else None
         if t in orphan and "NoneType" in c["exc"]:
@@ -510,13 +641,22 @@ def run(rep: vlib.Reporter, tier: str, seed: int) -> None:
             if n_orphan == 1:
                 rep.finding(KF_ORPHAN, "filter feature on a derived group is not linked to the group's inputs", {"kind": "e2e", **replay_obj(c)})
         else:
+            key = mode_domain(c, cfg_by_id[c["cfg"]])
+            if key is not None:
+                mode_kf[key] = mode_kf.get(key, 0) + 1
+                if key not in mode_kf_first:
+                    mode_kf_first[key] = c
+                continue
             if reported_exc < 8:
-                rep.finding(f"e2e-exception:{c['cfg']}:{c['req']}:{c['ordering']}",
-                            f"run_all({c['req']}, column_ordering={c['ordering']!r}) [{c['cfg']}, hash seed {c['hashseed']}] raised {c['exc']}",
-                            {"kind": "e2e", **replay_obj(c)})
+                rep.finding(f"e2e-exception:{c['cfg']}:{c['req']}:{c['ordering']}:{c.get('mode', 'SYNC')}",
+                            f"run_all({c['req']}, column_ordering={c['ordering']!r}, mode {c.get('mode', 'SYNC')}) [{c['cfg']}, hash seed "
+                            f"{c['hashseed']}] raised {c['exc']}", {"kind": "e2e", **replay_obj(c)})
                 reported_exc += 1
             found = True
     rep.coverage["e2e"]["exceptions_in_orphan_filter_domain"] = n_orphan
+    for key, c in mode_kf_first.items():
+        rep.finding(key, f"{key}: run_all({c['req']}, mode {c['mode']}) [{c['cfg']}] raised {c['exc'][-200:]}; the SYNC run returns "
+                         f"{c['sync']['tables']}", {"kind": "e2e", **replay_obj(c)})
 
     # process correspondence (trace, collection, asked names)
     pts = list(proc_cases.values())
@@ -574,12 +714,117 @@ def run(rep: vlib.Reporter, tier: str, seed: int) -> None:
     for key, w in first.items():
         rep.finding(key, f"{key}: {w['failure']} for request {w['req']} ({w['cfg']}, hash seed {w['hashseed']}) -> {w['tables']}", w)
     rep.add("statement_failures_by_class", counts)
+    # ---------------- execution modes: the THREADING / MULTIPROCESSING runs against their SYNC sibling, transfer observation
+    per_mode: Dict[str, Dict[str, Any]] = {m: {"runs": 0, "ok": 0, "raised": 0, "raised_in_orphan_filter_domain": 0, "same_tables_as_sync": 0,
+                                               "statement_holds": 0, "identify_calls": 0, "by_ordering": {}, "by_framework": {},
+                                               "with_filter_or_index_feature_requested": 0, "with_subcolumn_request": 0,
+                                               "plans_with_join": 0, "in_conflict_domain": 0, "in_mp_join_domain": 0,
+                                               "known_defect_domain_failures": 0} for m in MODES3}
+    failing_ids = {id(c) for c, _ in failing}
+    mode_terms: Dict[str, Tuple[str, dict]] = {}
+    reported_mode = 0
+    n_uploads = 0
+    max_procs = 0
+    for c in mode_runs:
+        cfg = cfg_by_id[c["cfg"]]
+        pm = per_mode[c["mode"]]
+        pm["runs"] += 1
+        pm["by_ordering"][str(c["ordering"])] = pm["by_ordering"].get(str(c["ordering"]), 0) + 1
+        pm["by_framework"][cfg["fw"]] = pm["by_framework"].get(cfg["fw"], 0) + 1
+        aux = set(cfg["filters"] or []) | {i for l in (cfg["links"] or []) for i in l[1] + l[3]}
+        pm["with_filter_or_index_feature_requested"] += int(any(r in aux for r in c["req"]))
+        pm["with_subcolumn_request"] += int(any("~" in r for r in c["req"]))
+        sib = c if c["mode"] == "SYNC" else c.get("sync")
+        plan = sib.get("plan") if sib else None
+        pm["plans_with_join"] += int(bool(plan) and any(st["kind"] == "JOIN" for st in plan["steps"]))
+        pm["in_conflict_domain"] += int(bool(sib) and bool(sib.get("conflict_x" if c["mode"] == "MULTIPROCESSING" else "conflict")))
+        pm["in_mp_join_domain"] += int(kf_mp_join_after_upload(plan, cfg["fw"]))
+        pm["identify_calls"] += len(c["calls"])
+        pm["timeouts_not_reproduced_on_retry"] = pm.get("timeouts_not_reproduced_on_retry", 0) + int(c.get("timeouts", 0) == 1)
+        if len(c["req"]) >= 2:
+            rep.nontrivial(("m", c["cfg"], c["req"], c["ordering"], c["mode"]))
+        if c["exc"] is not None:
+            pm["raised"] += 1
+            continue
+        pm["ok"] += 1
+        pm["statement_holds"] += int(id(c) not in failing_ids)
+        if c["mode"] == "SYNC":
+            if c.get("plan") is None:
+                rep.finding(f"mode-probe:{c['cfg']}:{c['req']}", f"plan / footprint of the SYNC run could not be exported: {c.get('plan_err')}",
+                            {"kind": "e2e", **replay_obj(c)}, found_input=False)
+                found = True
+            continue
+        problems: List[str] = []
+        if sib is None or sib["exc"] is not None:
+            if sib is not None and not ("NoneType" in sib["exc"] and cfg["filters"]):
+                problems.append(f"the run succeeds in mode {c['mode']} while the SYNC run of the same request raised {sib['exc'][-160:]}")
+        elif canon_tables(c["tables"]) != canon_tables(sib["tables"]):
+            problems.append(f"returned tables {c['tables']} differ from the SYNC run's {sib['tables']}")
+        else:
+            pm["same_tables_as_sync"] += 1
+            if c["ordering"] == "alphabetical" and sorted(map(json.dumps, c["tables"])) != sorted(map(json.dumps, sib["tables"])):
+                problems.append(f"'alphabetical' tables {c['tables']} are not identical to the SYNC run's {sib['tables']}")
+        if c.get("child_events"):
+            problems.append(f"planning / selection calls were made inside a worker process: {c['child_events'][:4]} (the recorded trace is incomplete)")
+        if c["mode"] == "MULTIPROCESSING":
+            ups = c.get("uploads") or []
+            n_uploads += len(ups)
+            max_procs = max(max_procs, c.get("worker_processes", 0))
+            for k in c["calls"]:
+                held = k["cols"] if k["cols"] in ups else None
+                if held is None:
+                    problems.append(f"the selection saw columns {k['cols']} which no worker process uploaded (uploads: {ups})")
+                elif not (k["ordering"] == "request_order" and len(k["iter"]) >= 2):
+                    t = (f"(({CQ_MODE[c['mode']]}, {cq_strs(k['iter'])}, {cq_strs(held)}, {cq_strs(k['cols'])}, {cq_ordering(k['ordering'])}), "
+                         f"{cq_result(k['kind'], k['res'])})")
+                    mode_terms.setdefault(t, (t, c))
+        else:
+            for k in c["calls"]:
+                if not (k["ordering"] == "request_order" and len(k["iter"]) >= 2):
+                    t = (f"(({CQ_MODE[c['mode']]}, {cq_strs(k['iter'])}, {cq_strs(k['cols'])}, {cq_strs(k['cols'])}, {cq_ordering(k['ordering'])}), "
+                         f"{cq_result(k['kind'], k['res'])})")
+                    mode_terms.setdefault(t, (t, c))
+        for pmsg in problems:
+            found = True
+            if reported_mode < 8:
+                reported_mode += 1
+                rep.finding(f"mode:{c['mode']}:{c['cfg']}:{c['req']}:{c['ordering']}:{pmsg[:40]}",
+                            f"run_all({c['req']}, column_ordering={c['ordering']!r}, mode {c['mode']}) [{c['cfg']}, hash seed {c['hashseed']}]: {pmsg}",
+                            {"kind": "e2e", **replay_obj(c)})
+    mode_ids = {id(c) for c in mode_runs}
+    for c in raised:
+        if id(c) not in mode_ids:
+            continue
+        if "env" in c and f"({env_term(c['env'])}, {cq_strs(c['req'])})" in orphan:
+            per_mode[c["mode"]]["raised_in_orphan_filter_domain"] += 1
+        elif mode_domain(c, cfg_by_id[c["cfg"]]) is not None:
+            per_mode[c["mode"]]["known_defect_domain_failures"] += 1
+    mts = list(mode_terms.values())
+    badm, infom = vlib.run_cases("C03", "calls_mode", REQ, "chk_ident_mode", [t for t, _ in mts], case_type=IDENT_MODE_TY,
+                                 extra_defs=EXTRA, shard=400) if mts else ([], {})
+    for i in badm[:5]:
+        c = mts[i][1]
+        rep.finding(f"call-mode:{mts[i][0][:200]}", f"a selection call of run_all({c['req']}, mode {c['mode']}) [{c['cfg']}] differs from "
+                    f"Model.identify over seen_cols: {mts[i][0][:400]}", {"kind": "e2e", **replay_obj(c)})
+        found = True
+    rep.add("modes", {"per_mode": per_mode, "requests_per_configuration": len(mode_jobs[0][0]["cases"]) // 3 if mode_jobs else 0,
+                      "selection_calls_checked_with_seen_cols": {**infom, "distinct": len(mts), "disagreements": len(badm)},
+                      "uploads_recorded_in_worker_processes": n_uploads, "max_worker_processes_per_run": max_procs,
+                      "known_defect_domain_hits": mode_kf, "process_start_method": mp_obs.start_method(),
+                      "plans_classified_by_conflict_free": len(sibs), "distinct_plan_terms": len(sib_terms), "domain_eval_s": t_dom})
+    if mp_obs.start_method() != "fork":
+        rep.finding("modes-start-method", f"worker processes start with {mp_obs.start_method()!r}: harness wrappers are not inherited",
+                    {"kind": "e2e"}, found_input=False)
+        found = True
     rep.add("rule", "unit: PRNG name sets over 10 bases x 9 suffixes sharing prefixes and '~', 0-4 features, 0-7 columns, 4 ordering "
                     "values; e2e: 12 configurations (3 pools of 7 names over one 6-group graph with dependencies, a 2-level chain, a join, "
                     "multi-column features on a root and on a derived group, index columns, 0-2 links, 0-2 global filters, 3 compute "
                     "frameworks); quick = all ordered requests of <= 2 names + 36 sampled of 3-4 names, thorough = all 1099 ordered "
                     "requests of <= 4 names, each x 3 orderings x hash seeds. non-trivial = unit call with >= 2 names and >= 2 selected "
-                    "columns / e2e request with >= 2 names (distinct by configuration, name set, ordering)")
+                    "columns / e2e request with >= 2 names (distinct by configuration, name set, ordering). modes: per configuration 8 "
+                    "(quick) / 96 (thorough) ordered requests of 1-4 names x 3 orderings, each run in SYNC, THREADING and MULTIPROCESSING "
+                    "(one hash seed per configuration, rotating); non-trivial = request with >= 2 names (distinct by configuration, "
+                    "ordered request, ordering, mode)")
     for c in (ucases[:2] + [{k: v for k, v in r.items() if k in ("cfg", "hashseed", "req", "ordering", "tables", "trace")} for r in runs[100:400:100]]):
         rep.sample(c)
     rep.add("total_wall_s", round(time.time() - t_start, 1))
@@ -617,9 +862,27 @@ def classify(c: dict, f: dict) -> Optional[str]:
     return None
 
 
+def mode_domain(c: dict, cfg: dict) -> Optional[str]:
+    """Known-finding key if a THREADING / MULTIPROCESSING run that RAISED lies in a mode-specific known-defect domain: its
+    SYNC sibling succeeded and (a) the plan has two steps, not ordered by the wait-for relation, working on one object
+    (THREADING: conflict_free false; MULTIPROCESSING: conflict_free_x false), or (b) kf_mp_join_after_upload."""
+    sib = c.get("sync")
+    if c.get("mode", "SYNC") == "SYNC" or sib is None or sib["exc"] is not None or "HANG" in (c["exc"] or ""):
+        return None
+    if c["mode"] == "THREADING" and sib.get("conflict"):
+        return KF_RACE
+    if c["mode"] == "MULTIPROCESSING":
+        if kf_mp_join_after_upload(sib.get("plan"), cfg["fw"]):
+            return KF_MPJOIN
+        if sib.get("conflict_x"):
+            return KF_RACE
+    return None
+
+
 def replay_obj(c: dict) -> dict:
-    return {"cfg": c["cfg"], "hashseed": c["hashseed"], "req": c["req"], "ordering": c["ordering"], "tables": c.get("tables"),
-            "exc": c.get("exc"), "trace": c.get("trace")}
+    return {"cfg": c["cfg"], "hashseed": c["hashseed"], "req": c["req"], "ordering": c["ordering"], "mode": c.get("mode", "SYNC"),
+            "tables": c.get("tables"), "exc": c.get("exc"), "trace": c.get("trace"),
+            "sync_tables": (c.get("sync") or {}).get("tables"), "uploads": c.get("uploads")}
 
 
 def replay(path: str) -> int:
@@ -628,11 +891,20 @@ def replay(path: str) -> int:
     if r.get("kind") == "e2e" and "cfg" in r:
         cfg = {c["id"]: c for c in CONFIGS}[r["cfg"]]
         job = {"universe": UNIVERSE, "config": {k: cfg[k] for k in ("fw", "links", "filters")}, "cases": [[r["req"], r["ordering"]]]}
+        mode = r.get("mode", "SYNC")
+        if mode != "SYNC":
+            from harness.orch import flight_server, stop_flight_server
+            job["modes"] = ["SYNC", mode]
+            job["flight"] = flight_server().get_location()
         out = run_worker(job, int(r["hashseed"]), "replay")
+        if mode != "SYNC":
+            stop_flight_server()
         if out.get("error"):
             print(out["error"])
             return 1
-        c = out["cases"][0]
+        c = out["cases"][-1]
+        if mode != "SYNC":
+            print(f"mode {mode}; SYNC run now: tables =", out["cases"][0]["tables"], "exc =", out["cases"][0]["exc"])
         print("now: tables =", c["tables"], "exc =", c["exc"])
         print("recorded: tables =", r.get("tables"), "exc =", r.get("exc"))
         if c["exc"] is None:
